@@ -1,6 +1,6 @@
 (* AttrThms2.v — C10: the analytic error bars of the GENERATED attribute table are the Bendat-Piersol expressions. *)
 From Coq Require Import ZArith List Bool Reals Lra Lia Psatz.
-From SK Require Import Arith Cpx AttrThms.
+From SK Require Import Arith Cpx AttrThms Jordan.
 From SK.gen Require Import AttrsGen.
 Open Scope R_scope.
 
@@ -126,5 +126,19 @@ Proof.
   assert (0 < sqrt (2 * coh e * navg e)) by (apply sqrt_lt_R0; apply Rmult_lt_0_compat; lra).
   unfold Rdiv. apply Rmult_le_compat_r; [left; apply Rinv_0_lt_compat; assumption|].
   apply x_le_asin. split; [apply sqrt_pos|]. apply Rle_trans with (sqrt 1); [apply sqrt_le_1_alt; simpl T in *; lra|rewrite sqrt_1; lra].
+Qed.
+Theorem rad_error_le_half_pi_mag_error e : 0 < coh e -> coh e <= 1 -> 0 < navg e ->
+  g_Hxy_rad_error_csd RA F e <= PI / 2 * g_Hxy_mag_error_csd RA F e.
+Proof.
+  intros Hg Hg1 Hn. rewrite Hxy_mag_error_form, Hxy_rad_error_form by assumption.
+  assert (0 < sqrt (2 * coh e * navg e)) by (apply sqrt_lt_R0; apply Rmult_lt_0_compat; lra).
+  unfold Rdiv. rewrite <- Rmult_assoc. apply Rmult_le_compat_r; [left; apply Rinv_0_lt_compat; assumption|].
+  apply asin_le_half_pi_x. split; [apply sqrt_pos|]. apply Rle_trans with (sqrt 1); [apply sqrt_le_1_alt; simpl T in *; lra|rewrite sqrt_1; lra].
+Qed.
+(* at coherence 1 both the magnitude and the phase error vanish (their common limit) *)
+Theorem errors_vanish_at_full_coherence e : coh e = 1 -> g_Hxy_mag_error_csd RA F e = 0 /\ g_Hxy_rad_error_csd RA F e = 0.
+Proof.
+  intros H1. rewrite Hxy_mag_error_form, Hxy_rad_error_form by (simpl T in *; lra). rewrite H1.
+  replace (1 - 1) with 0 by ring. rewrite sqrt_0, asin_0. unfold Rdiv. rewrite !Rmult_0_l. split; reflexivity.
 Qed.
 End BP.
